@@ -72,9 +72,11 @@ func verifShape(i int) (root *verifSrc, ps3 bool) {
 	}
 	// thorough: a directory with many entries (records fill more than one sector)
 	var many []*verifSrc
-	names := [48]string{"f00", "f01", "f02", "f03", "f04", "f05", "f06", "f07", "f08", "f09", "f10", "f11", "f12", "f13", "f14", "f15",
-		"f16", "f17", "f18", "f19", "f20", "f21", "f22", "f23", "f24", "f25", "f26", "f27", "f28", "f29", "f30", "f31",
-		"f32", "f33", "f34", "f35", "f36", "f37", "f38", "f39", "f40", "f41", "f42", "f43", "f44", "f45", "f46", "f47"}
+	// 55 three-character names: '.'+'..' (68 bytes) + 55 records of 36 bytes = 2048: the primary directory fills its sector exactly
+	var names []string
+	for k := 0; k < 55; k++ {
+		names = append(names, "f"+string(rune('0'+k/10))+string(rune('0'+k%10)))
+	}
 	for _, n := range names {
 		many = append(many, &verifSrc{name: n, size: 1, mtime: 7})
 	}
